@@ -1,13 +1,256 @@
 /-
   C15 — Interpolation, location and densification agree along a line.
+
+  Property theorems only (helper lemmas: GeoProofs/Lemmas/C15.lean). Model: GeoModel/Interp.lean.
+  Segment lengths enter through an abstract `len`; what a theorem needs of it is the hypothesis
+  `LenAx len` (non-negative, symmetric, zero only between equal points) — all true of the Euclidean
+  length — or is stated explicitly.
 -/
 import GeoModel.Interp
+import GeoProofs.Lemmas.C15
 
 namespace Geo.Proofs.C15
 open Geo Geo.Interp
 
+/-! ### ratio form, distance form, clamping -/
+
 /-- [T] the ratio form of a LineString is the distance form at `r · length` (definitional). -/
 theorem ratio_distance (len : Len) (cs : List Pt) (r : Rat) :
     lsPointAtRatioFromStart len cs r = lsPointAtDistanceFromStart len cs (r * lsLength len cs) := rfl
+
+theorem ratio_distance_end (len : Len) (cs : List Pt) (r : Rat) :
+    lsPointAtRatioFromEnd len cs r = lsPointAtDistanceFromEnd len cs (r * lsLength len cs) := rfl
+
+/-- [T] Line: a ratio `≤ 0` gives the start, `≥ 1` the end (and mirrored from the end). -/
+theorem line_ratio_clamp (a b : Pt) (r : Rat) :
+    (r ≤ 0 → linePointAtRatioFromStart a b r = a ∧ linePointAtRatioFromEnd a b r = b) ∧
+    (1 ≤ r → linePointAtRatioFromStart a b r = b ∧ linePointAtRatioFromEnd a b r = a) := by
+  constructor
+  · intro h; simp [linePointAtRatioFromStart, linePointAtRatioFromEnd, h]
+  · intro h
+    have h' : ¬ r ≤ 0 := by linarith
+    simp [linePointAtRatioFromStart, linePointAtRatioFromEnd, h, h']
+
+/-- [T] Line: a distance `≤ 0` gives the start, `≥ length` the end (as points of the plane). -/
+theorem line_distance_clamp {len : Len} (hl : LenAx len) (a b : Pt) (d : Rat) :
+    (d ≤ 0 → linePointAtDistanceFromStart len a b d = a ∧ linePointAtDistanceFromEnd len a b d = b) ∧
+    (len a b ≤ d → linePointAtDistanceFromStart len a b d = b ∧ linePointAtDistanceFromEnd len a b d = a) := by
+  constructor
+  · intro h; simp [linePointAtDistanceFromStart, linePointAtDistanceFromEnd, h]
+  · intro h
+    by_cases h0 : d ≤ 0
+    · have hz : len a b = 0 := by have := hl.nonneg a b; linarith
+      have := hl.eq_of_zero a b hz; subst this
+      simp [linePointAtDistanceFromStart, linePointAtDistanceFromEnd, h0]
+    · simp [linePointAtDistanceFromStart, linePointAtDistanceFromEnd, h0, h]
+
+/-- [T] Line: strictly inside, the distance form never divides by a zero length. -/
+theorem line_distance_inside_pos (len : Len) (a b : Pt) (d : Rat) (h0 : 0 < d) (h1 : d < len a b) :
+    0 < len a b ∧ linePointAtDistanceFromStart len a b d = pointAtDistanceBetween len a b d := by
+  refine ⟨by linarith, ?_⟩
+  simp [linePointAtDistanceFromStart, not_le.2 h0, not_le.2 h1]
+
+/-- [T] Line: ratio form and distance form coincide, `r ↦ r · length`. -/
+theorem line_ratio_distance {len : Len} (hl : LenAx len) (a b : Pt) (r : Rat) :
+    linePointAtRatioFromStart a b r = linePointAtDistanceFromStart len a b (r * len a b) := by
+  by_cases h0 : len a b = 0
+  · have := hl.eq_of_zero a b h0; subst this
+    simp only [linePointAtRatioFromStart, linePointAtDistanceFromStart, h0, mul_zero, le_refl, if_true]
+    split
+    · rfl
+    · split
+      · rfl
+      · apply Pt.ext' <;> simp [lerp]
+  · have hp : 0 < len a b := lt_of_le_of_ne (hl.nonneg a b) (Ne.symm h0)
+    simp only [linePointAtRatioFromStart, linePointAtDistanceFromStart]
+    by_cases hr0 : r ≤ 0
+    · have : r * len a b ≤ 0 := mul_nonpos_of_nonpos_of_nonneg hr0 (le_of_lt hp)
+      simp [hr0, this]
+    · have hr0' : 0 < r := not_le.1 hr0
+      have : ¬ r * len a b ≤ 0 := not_le.2 (mul_pos hr0' hp)
+      simp only [hr0, this, if_false]
+      by_cases hr1 : r ≥ 1
+      · have : r * len a b ≥ len a b := by nlinarith
+        simp [hr1, this]
+      · have : ¬ r * len a b ≥ len a b := by
+          intro h; apply hr1; have := not_le.1 hr1; nlinarith
+        simp only [hr1, this, if_false]
+        apply Pt.ext' <;> simp only [lerp, pointAtDistanceBetween] <;> field_simp
+
+/-- [T] Line: `from_start(r)` and `from_end(1 − r)` are the same point, for every `r`. -/
+theorem line_ratio_start_end (a b : Pt) (r : Rat) :
+    linePointAtRatioFromStart a b r = linePointAtRatioFromEnd a b (1 - r) := by
+  simp only [linePointAtRatioFromStart, linePointAtRatioFromEnd]
+  by_cases h0 : r ≤ 0
+  · have : 1 - r ≥ 1 := by linarith
+    have h' : ¬ (1 - r ≤ 0) := by linarith
+    simp [h0, this, h']
+  · by_cases h1 : r ≥ 1
+    · have : 1 - r ≤ 0 := by linarith
+      simp [h0, h1, this]
+    · have h2 : ¬ (1 - r ≤ 0) := by linarith
+      have h3 : ¬ (1 - r ≥ 1) := by intro h; apply h0; linarith
+      simp only [h0, h1, h2, h3, if_false]
+      apply Pt.ext' <;> simp only [lerp] <;> ring
+
+/-- [T] LineString: a distance `≤ 0` gives the first coordinate (from the end: the last). -/
+theorem ls_distance_clamp_lo (len : Len) (cs : List Pt) (d : Rat) (h : d ≤ 0) :
+    lsPointAtDistanceFromStart len cs d = cs.head? ∧ lsPointAtDistanceFromEnd len cs d = cs.getLast? := by
+  simp [lsPointAtDistanceFromStart, lsPointAtDistanceFromEnd, h]
+
+/-! ### the walk -/
+
+/-- [T] `walk_arclength`: for `0 < d` the walk stops on the segment `(a,b)` whose cumulative
+interval contains `d` — `Σ pre < d ≤ Σ pre + len a b` — with remaining distance
+`d − Σ pre`; that segment has positive length (a zero-length segment is skipped, never divided
+by). -/
+theorem walk_arclength (len : Len) (ss : List (Pt × Pt)) (d : Rat) (a b : Pt) (r : Rat) (hd : 0 < d)
+    (h : walk len ss d = some (a, b, r)) :
+    ∃ pre post, ss = pre ++ (a, b) :: post ∧ r = d - sumLen len pre ∧
+      sumLen len pre < d ∧ d ≤ sumLen len pre + len a b ∧ 0 < len a b := by
+  obtain ⟨pre, post, e, hr, hpos, hle⟩ := walk_some ss d hd h
+  exact ⟨pre, post, e, hr, by linarith, by linarith, by linarith⟩
+
+/-- [T] the walk runs off the end exactly when `d` exceeds the total length. -/
+theorem walk_off_end {len : Len} (hl : LenAx len) (ss : List (Pt × Pt)) (d : Rat) (hd : 0 < d) :
+    walk len ss d = none ↔ sumLen len ss < d :=
+  ⟨walk_none ss d hd, walk_eq_none hl ss d⟩
+
+/-- [T] `from_end` is `from_start` of the reversed line string (same walk over `rev_lines`). -/
+theorem from_end_eq_reverse (len : Len) (cs : List Pt) (d : Rat) :
+    lsPointAtDistanceFromEnd len cs d = lsPointAtDistanceFromStart len cs.reverse d := by
+  simp only [lsPointAtDistanceFromEnd, lsPointAtDistanceFromStart, revSegs_eq_flipRev, segs_reverse,
+    List.head?_reverse, List.getLast?_reverse]
+
+/-! ### arc-length characterisation and the start/end symmetry -/
+
+private theorem segs_head {cs : List Pt} {a b : Pt} {rest : List (Pt × Pt)}
+    (h : segs cs = (a, b) :: rest) : cs.head? = some a := by
+  match cs, h with
+  | x :: y :: t, h => simp only [segs, List.cons.injEq, Prod.mk.injEq] at h; simp [h.1.1]
+
+private theorem segs_last : ∀ {cs : List Pt} {init : List (Pt × Pt)} {a b : Pt},
+    segs cs = init ++ [(a, b)] → cs.getLast? = some b
+  | [], init, a, b, h => by simp [segs] at h
+  | [_], init, a, b, h => by simp [segs] at h
+  | [x, y], init, a, b, h => by
+    cases init with
+    | nil => simp only [segs, List.nil_append, List.cons.injEq, Prod.mk.injEq, and_true] at h; simp [h.2]
+    | cons i is => simp [segs] at h
+  | x :: y :: z :: t, init, a, b, h => by
+    cases init with
+    | nil => simp [segs] at h
+    | cons i is =>
+      simp only [segs, List.cons_append, List.cons.injEq] at h
+      have := segs_last (cs := y :: z :: t) (init := is) (a := a) (b := b) (by simpa [segs] using h.2)
+      simpa using this
+
+/-- [T] `lies on the line at arc length d`: for `0 ≤ d ≤ length` (and at least one segment) the
+distance form returns a point that is at arc length `d` on the chain of segments (`OnSegs`: on
+a segment whose cumulative interval contains `d`, at `len`-distance `d − Σ before` from its
+start); by `onSegs_unique` that point is unique. -/
+theorem ls_distance_onSegs {len : Len} (hl : LenAx len) (cs : List Pt) (d : Rat) (hne : segs cs ≠ [])
+    (h0 : 0 ≤ d) (h1 : d ≤ lsLength len cs) :
+    ∃ p, lsPointAtDistanceFromStart len cs d = some p ∧ OnSegs len (segs cs) d p := by
+  unfold lsPointAtDistanceFromStart
+  by_cases hd : d ≤ 0
+  · have hd0 : d = 0 := le_antisymm hd h0
+    rw [if_pos hd]
+    match hs : segs cs, hne with
+    | (a, b) :: rest, _ =>
+      exact ⟨a, segs_head hs, Or.inl ⟨h0, by rw [hd0]; exact hl.nonneg a b, by rw [hd0, pdb_zero]⟩⟩
+  · rw [if_neg hd]
+    have hpos : 0 < d := not_le.1 hd
+    match hw : walk len (segs cs) d with
+    | some (a, b, r) => exact ⟨_, rfl, walk_onSegs (segs cs) d hpos hw⟩
+    | none =>
+      have := walk_none (segs cs) d hpos hw
+      unfold lsLength at h1
+      linarith
+
+/-- [T] LineString: a distance `≥ length` gives the last coordinate, as a point of the plane
+(for `d = length` the walk stops at the end of the last segment of positive length, which is
+the last coordinate because everything after it has zero length). -/
+theorem ls_distance_clamp_hi {len : Len} (hl : LenAx len) (cs : List Pt) (d : Rat)
+    (h : lsLength len cs ≤ d) : lsPointAtDistanceFromStart len cs d = cs.getLast? := by
+  by_cases hne : segs cs = []
+  · -- no segment: at most one coordinate
+    unfold lsPointAtDistanceFromStart
+    rw [hne]
+    match cs, hne with
+    | [], _ => simp [walk]
+    | [a], _ => simp [walk]
+  · have hL : 0 ≤ lsLength len cs := sumLen_nonneg hl _
+    by_cases hgt : lsLength len cs < d
+    · unfold lsPointAtDistanceFromStart
+      have hd : ¬ d ≤ 0 := by linarith
+      rw [if_neg hd, walk_eq_none hl _ _ hgt]
+    · have hd : d = lsLength len cs := le_antisymm (not_lt.1 hgt) h
+      obtain ⟨p, hp, hon⟩ := ls_distance_onSegs hl cs d hne (by linarith) (le_of_eq hd)
+      rw [hp]
+      -- the last coordinate is also at arc length `length`
+      obtain ⟨init, s, hs⟩ : ∃ init s, segs cs = init ++ [s] :=
+        ⟨(segs cs).dropLast, (segs cs).getLast hne, (List.dropLast_append_getLast hne).symm⟩
+      obtain ⟨a, b⟩ := s
+      have hlast : OnSegs len (segs cs) d b := by
+        rw [hs, onSegs_append]
+        right
+        have : d - sumLen len init = len a b := by
+          rw [hd]; unfold lsLength; rw [hs, sumLen_append]; simp [sumLen]
+        rw [this]
+        exact Or.inl ⟨hl.nonneg a b, le_refl _, (pdb_full hl a b).symm⟩
+      rw [segs_last hs, onSegs_unique hl _ d p b (chain_segs cs) hon hlast]
+
+/-- [T] `from_start(d)` and `from_end(length − d)` are the same point of the plane, for every
+`0 ≤ d ≤ length` — including `d` exactly at a vertex, repeated vertices and zero-length
+segments. -/
+theorem distance_start_end {len : Len} (hl : LenAx len) (cs : List Pt) (d : Rat)
+    (h0 : 0 ≤ d) (h1 : d ≤ lsLength len cs) :
+    lsPointAtDistanceFromStart len cs d = lsPointAtDistanceFromEnd len cs (lsLength len cs - d) := by
+  rw [from_end_eq_reverse]
+  by_cases hne : segs cs = []
+  · match cs, hne with
+    | [], _ => simp [lsPointAtDistanceFromStart, walk, segs]
+    | [a], _ => simp [lsPointAtDistanceFromStart, walk, segs]
+  · have hrev : segs cs.reverse = flipRev (segs cs) := segs_reverse cs
+    have hLrev : lsLength len cs.reverse = lsLength len cs := by
+      unfold lsLength; rw [hrev, sumLen_flipRev hl]
+    have hne' : segs cs.reverse ≠ [] := by
+      rw [hrev]; unfold flipRev; simpa using hne
+    obtain ⟨p, hp, hon⟩ := ls_distance_onSegs hl cs d hne h0 h1
+    obtain ⟨q, hq, hon'⟩ := ls_distance_onSegs hl cs.reverse (lsLength len cs - d) hne'
+      (by linarith) (by rw [hLrev]; linarith)
+    rw [hp, hq]
+    have := onSegs_flipRev hl (segs cs) d p hon
+    rw [← hrev] at this
+    rw [onSegs_unique hl _ _ p q (chain_segs cs.reverse) this hon']
+
+/-- [T] `point_at_ratio_from_start(line, r)` coincides with `point_at_ratio_from_end(line, 1 − r)`
+as a point of the plane, for **every** ratio `r` (negative and beyond 1 included: both clamp). -/
+theorem ratio_start_end {len : Len} (hl : LenAx len) (cs : List Pt) (r : Rat) :
+    lsPointAtRatioFromStart len cs r = lsPointAtRatioFromEnd len cs (1 - r) := by
+  have hL : 0 ≤ lsLength len cs := sumLen_nonneg hl _
+  have hLrev : lsLength len cs.reverse = lsLength len cs := by
+    unfold lsLength; rw [segs_reverse, sumLen_flipRev hl]
+  unfold lsPointAtRatioFromStart lsPointAtRatioFromEnd
+  by_cases h0 : r < 0
+  · -- start side clamps to the first coordinate; end side is at ≥ length from the end
+    rw [(ls_distance_clamp_lo len cs _ (by nlinarith)).1, from_end_eq_reverse,
+      ls_distance_clamp_hi hl cs.reverse _ (by rw [hLrev]; nlinarith)]
+    simp
+  · by_cases h1 : 1 < r
+    · rw [ls_distance_clamp_hi hl cs _ (by nlinarith),
+        (ls_distance_clamp_lo len cs _ (by nlinarith)).2]
+    · have e : (1 - r) * lsLength len cs = lsLength len cs - r * lsLength len cs := by ring
+      rw [e]
+      exact distance_start_end hl cs _ (by nlinarith [not_lt.1 h0]) (by nlinarith [not_lt.1 h1])
+
+/-- [T] clamping of the ratio form: `r ≤ 0` gives the first coordinate, `r ≥ 1` the last. -/
+theorem ls_ratio_clamp {len : Len} (hl : LenAx len) (cs : List Pt) (r : Rat) :
+    (r ≤ 0 → lsPointAtRatioFromStart len cs r = cs.head?) ∧
+    (1 ≤ r → lsPointAtRatioFromStart len cs r = cs.getLast?) := by
+  have hL : 0 ≤ lsLength len cs := sumLen_nonneg hl _
+  exact ⟨fun h => (ls_distance_clamp_lo len cs _ (by nlinarith)).1,
+    fun h => ls_distance_clamp_hi hl cs _ (by nlinarith)⟩
 
 end Geo.Proofs.C15
